@@ -10,13 +10,17 @@ PROPERTY = "C03"
 CONTRACTS = ["contracts.c03"]
 LEVEL = "exploration"
 EXPLANATION = (
+    "Contract-based (bounded-symbolic): _escape_like - through which every text and file filter value reaches LIKE - is verified "
+    "for every value of at most 3 / 5 symbolic characters: decoding the result under the LIKE ... ESCAPE rules gives back the "
+    "value, no character of it acts as a wildcard, and only %, _ and the backslash are escaped ('every character taken literally'). "
     "Bounded: filter trees built directly as domain objects (every atom kind, negation, nesting, literal characters including "
-    "% _ and backslash) are run through SQLRepo.get_notes_by_query on a real SQLite index built from fixture pages, and the "
-    "returned ZID sets are compared with an evaluator written clause by clause from the statement over the independently read "
-    "universe (raw rows + recompiled files)."
+    "% _ and backslash; all pairs of representative atoms in one AND group and as two alternatives) are run through "
+    "SQLRepo.get_notes_by_query on a real SQLite index built from fixture pages, and the returned ZID sets are compared with an "
+    "evaluator written clause by clause from the statement over the independently read universe (raw rows + recompiled files). "
+    "The translation of the filter tree to SQL is not under contract (no SQL term algebra was built)."
 )
 ASSUMPTIONS = ["integer comparisons are only checked against numeric stored values (the statement does not pin the other case)"]
-TRUSTED = ["SQLAlchemy / SQLite (real stack)", "the index agrees with the files (C05)"]
+TRUSTED = ["z3 5.1 / cvc5 1.0.3", "pyvc symbolic interpreter (engine/)", "SQLAlchemy / SQLite (real stack)", "the index agrees with the files (C05)"]
 
 PAGES = {
     "p1.zo": "# Page one #shared k0::page\n\n- 240101#a1 Alpha note +proj1 #work [[p2]] due::2024-01-05 n::5 ID::G1\n"
